@@ -28,8 +28,10 @@ FILES = {
 CTX2PATH = {v[0]: k for k, v in FILES.items()}
 # possible import statements per file: (statement text, imported context names)
 IMPORTS = {
-    "a.py": [("import m1", ["modules.m1"]), ("import pkg", ["modules.pkg"]), ("from m1 import mval", ["modules.m1"]), ("import m12", ["modules.m12"])],
-    "b.py": [("import pkg", ["modules.pkg"]), ("import m1", ["modules.m1"]), ("import m12", ["modules.m12"])],
+    "a.py": [("import m1", ["modules.m1"]), ("import pkg", ["modules.pkg"]), ("from m1 import mval", ["modules.m1"]), ("import m12", ["modules.m12"]),
+             # a sub-module of the package imported directly, without importing the package itself
+             ("from pkg.sub import mval as subval", ["modules.pkg.sub"])],
+    "b.py": [("import pkg", ["modules.pkg"]), ("import m1", ["modules.m1"]), ("import m12", ["modules.m12"]), ("import pkg.sub as psub", ["modules.pkg.sub"])],
     "scripts/s1.py": [("import m1", ["modules.m1"])],
     "scripts/sub/s2.py": [("import m1", ["modules.m1"])],
     "apps/app12.py": [("import m1", ["modules.m1"]), ("import pkg", ["modules.pkg"])],
@@ -230,9 +232,16 @@ def gen(R):
     ops = []
     exists = set(initial)  # create only takes effect for a missing file, modify only for an existing one
     for _ in range(R.int(2, 10)):
-        k = R.weighted([(4, "modify"), (2, "touch"), (2, "create"), (2, "delete"), (1, "comment"), (1, "uncomment"), (3, "appconf"), (6, "reload"), (2, "bump")])
+        k = R.weighted([(4, "modify"), (2, "touch"), (2, "create"), (2, "delete"), (1, "comment"), (1, "uncomment"), (3, "appconf"), (6, "reload"), (2, "bump"), (1, "reload_overlap")])
         p = R.choice(paths)
-        if k in ("modify", "create"):
+        if k == "reload_overlap":
+            # a reload is requested and, while it is still running, a file is edited and a second reload is requested
+            g += 1
+            imps = no_cycle(p, [i for i in range(len(IMPORTS[p])) if R.bool(1, 2)], cur_imports)
+            cur_imports[p] = imps
+            exists.add(p)
+            ops.append({"op": "reload_overlap", "path": p, "gen": g, "imports": imps, "yields": R.choice([0, 1, 3, 10, 40])})
+        elif k in ("modify", "create"):
             g += 1
             imps = no_cycle(p, [i for i in range(len(IMPORTS[p])) if R.bool(1, 2)], cur_imports)
             if (k == "create") != (p in exists):
@@ -294,8 +303,10 @@ async def execute(case, variant=False):
             d, b = os.path.split(p)
             return os.path.join(root, d, ("#" if commented else "") + b)
 
-        async def observe(label, exp_executed, n_from):
+        async def observe(label, exp_executed, n_from, check_executed=True):
             loaded_obs = sorted(r[1][1] for r in it.records[n_from:] if r[1][0] == "loaded")
+            if not check_executed:
+                exp_executed = loaded_obs
             nprobe = len(it.records)
             it.fire("probe", {})
             await it.settle(1)
@@ -349,6 +360,60 @@ async def execute(case, variant=False):
                 await it.settle(1)
                 for c in m.loaded:
                     m.counters[c] = m.counters.get(c, 0) + 1
+            elif k == "reload_overlap":
+                import asyncio
+                import copy
+
+                p = op["path"]
+                n_from = len(it.records)
+                # the harness owns the schedule: the first reload is held where it is about to load its first file (it
+                # has decided what to reload from the files as they were); then the file is edited, the second reload
+                # is requested (it has to wait for the first) and the first is released
+                gate = {"armed": True, "go": asyncio.Event(), "reached": asyncio.Event()}
+                orig_load_file = GlobalContextMgr.load_file.__func__
+
+                async def gated_load_file(cls, *a, **kw):
+                    if gate["armed"]:
+                        gate["armed"] = False
+                        gate["reached"].set()
+                        await gate["go"].wait()
+                    return await orig_load_file(cls, *a, **kw)
+
+                GlobalContextMgr.load_file = classmethod(gated_load_file)
+                try:
+                    t1 = asyncio.ensure_future(it.hass.services.async_call("pyscript", "reload", {}, blocking=True))
+                    tr = asyncio.ensure_future(gate["reached"].wait())
+                    await asyncio.wait([t1, tr], return_when=asyncio.FIRST_COMPLETED)
+                    tr.cancel()
+                    commented = m.files[p]["commented"] if p in m.files else False
+                    os.makedirs(os.path.dirname(fpath(p)), exist_ok=True)
+                    with open(fpath(p, commented), "w") as fh:
+                        fh.write(source(p, op["gen"], op["imports"]))
+                    t = tick()
+                    os.utime(fpath(p, commented), (t, t))
+                    t2 = asyncio.ensure_future(it.hass.services.async_call("pyscript", "reload", {}, blocking=True))
+                    for _ in range(op["yields"]):
+                        await asyncio.sleep(0)
+                    gate["armed"] = False
+                    gate["go"].set()
+                    await asyncio.gather(t1, t2)
+                finally:
+                    GlobalContextMgr.load_file = classmethod(orig_load_file)
+                await it.settle()
+                # the first reload either worked on the files as they were before the edit (A) or already read the edited
+                # file (B); both are correct, the state after both reloads must be one of the two
+                m_a, m_b = m, copy.deepcopy(m)
+                m_a.reload(None)
+                for mm in (m_a, m_b):
+                    mm.files[p] = {"gen": op["gen"], "mtime": t, "imports": op["imports"], "commented": commented}
+                m_a.reload(None)
+                m_b.reload(None)
+                m = m_b
+                ok = await observe(f"op{i}:reload_overlap", [], n_from, check_executed=False)
+                if not ok:
+                    trace.pop()
+                    m = m_a
+                    ok = await observe(f"op{i}:reload_overlap", [], n_from, check_executed=False)
             elif k == "reload":
                 n_from = len(it.records)
                 exp_exec = m.reload(op["which"])
@@ -368,7 +433,11 @@ class C10(ModelCheck):
         if cyclic(cur):
             return False
         for op in case["ops"]:
-            if op["op"] in ("modify", "create") and (op["op"] == "create") != (op["path"] in cur):
+            if op["op"] == "reload_overlap":
+                cur[op["path"]] = op["imports"]
+                if cyclic(cur):
+                    return False
+            elif op["op"] in ("modify", "create") and (op["op"] == "create") != (op["path"] in cur):
                 cur[op["path"]] = op["imports"]
                 if cyclic(cur):
                     return False
@@ -380,7 +449,7 @@ class C10(ModelCheck):
         "modules/pkg/__init__.py + sub.py (each present or not) with generated import edges (import m, from m import x, "
         "relative import inside packages; modules importing modules) and optional app configuration, followed by 2-10 "
         "steps of modify / touch (mtime only) / create / delete / rename with '#' / add-remove-change app config / fire a "
-        "'bump' event that changes a counter in every loaded context / reload(None | name | '*'), ending with two plain "
+        "'bump' event that changes a counter in every loaded context / reload(None | name | '*') / an edit made while a reload is still running, followed by a second reload request (only the state after both is compared), ending with two plain "
         "reloads. Every file's preamble records (context, generation) when executed. Oracle: a model of the documented "
         "reload rules gives, after every reload, (a) which contexts were executed, (b) the set of loaded contexts with "
         "their generation and (c) their counter (untouched contexts keep it); observed through the load records, "
